@@ -68,6 +68,41 @@ let engine_line spec l =
     print_endline (String.concat " " (List.map str_outcome outs))
   end
 
+(* diag case := grouping excl ntest {file}* nranges {file from to}* nconf {id file line col off nnil {node}* nnon {node}*}*
+   node := ppvalid pfile pline pcol cpvalid cfile cline ccol prepr crepr *)
+let diag_line l =
+  let a = Array.of_list (ints_of_line l) in
+  let pos = ref 0 in
+  let next () = let v = a.(!pos) in incr pos; v in
+  let grouping = next () = 1 in let excl = next () = 1 in
+  let nt = next () in
+  let tf = List.init nt (fun _ -> nat_of_int (next ())) in
+  let nr = next () in
+  let ranges = List.init nr (fun _ -> let f = next () in let fr = next () in let t = next () in
+    { r_file = nat_of_int f; r_from = nat_of_int fr; r_to = nat_of_int t }) in
+  let read_pos () =
+    let v = next () in let f = next () in let l = next () in let c = next () in
+    { p_file = nat_of_int f; p_line = nat_of_int l; p_col = nat_of_int c; p_off = nat_of_int (l * 100 + c); p_valid = (v = 1) } in
+  let read_nodes () =
+    let n = next () in
+    List.init n (fun _ -> let pp = read_pos () in let cp = read_pos () in let pr = next () in let cr = next () in
+      { n_ppos = pp; n_cpos = cp; n_prepr = nat_of_int pr; n_crepr = nat_of_int cr }) in
+  let nc = next () in
+  let cs = List.init nc (fun _ ->
+    let id = next () in let f = next () in let l = next () in let c = next () in let off = next () in
+    let nil = read_nodes () in let non = read_nodes () in
+    { c_id = nat_of_int id;
+      c_pos = { p_file = nat_of_int f; p_line = nat_of_int l; p_col = nat_of_int c; p_off = nat_of_int off; p_valid = true };
+      c_nil = nil; c_nonnil = non; c_func = None; c_test = false }) in
+  let ds = diagnostics_tf grouping ranges excl tf cs in
+  let place = function
+    | None -> "-"
+    | Some ((f, l), c) -> Printf.sprintf "%d:%d:%d" (int_of_nat f) (int_of_nat l) (int_of_nat c) in
+  print_endline (String.concat " ; " (List.map (fun d ->
+    Printf.sprintf "D id=%d pos=%d:%d valid=true n=%d places=%s" (int_of_nat d.d_head.c_id)
+      (int_of_nat d.d_head.c_pos.p_file) (int_of_nat d.d_head.c_pos.p_line) (List.length d.d_similar)
+      (String.concat "|" (List.map place (shown_places d)))) ds))
+
 let () =
   let mode = if Array.length Sys.argv > 1 then Sys.argv.(1) else "engine" in
   try
@@ -77,6 +112,7 @@ let () =
         (match mode with
          | "engine" -> engine_line false l
          | "enginespec" -> engine_line true l
+         | "diag" -> diag_line l
          | _ -> failwith "unknown mode")
     done
   with End_of_file -> ()
